@@ -11,8 +11,8 @@ CONSTANTS
   MaxMerges = 0
   PauseMode = "none"
   HazFD = FALSE
-  HazClose2 = FALSE
-  HazFMMem = FALSE
+  LegacyClose2 = FALSE
+  LegacyFMMem = FALSE
 INVARIANTS TypeOK ContractHolds
 PROPERTIES CloseCompletes EveryCallReturns CancelledSearchReturns
 CHECK_DEADLOCK TRUE
